@@ -166,12 +166,31 @@ static int fk_refuse(void)
 	}
 	return 0;
 }
-void * __wrap_malloc(size_t n) { void * p; if (fk_refuse()) return NULL; p = __real_malloc(n); fk_track(p, n); return p; }
-void * __wrap_calloc(size_t a, size_t b) { void * p; if (fk_refuse()) return NULL; p = __real_calloc(a, b); fk_track(p, a * b); return p; }
+/* A request for 2^47 bytes or more exceeds the user address space of this platform: every allocator
+ * answers NULL / ENOMEM (glibc at once for > PTRDIFF_MAX, after a refused mmap below that).  The
+ * sanitizer's allocator would end the process instead, so the answer is given here; it is the real
+ * allocator's answer, not an injected failure (fk_fail_total is not touched). */
+#define FK_UNSATISFIABLE ((size_t)1 << 47)
+unsigned long fk_unsat;			/* such requests so far */
+void * __wrap_malloc(size_t n)
+{
+	void * p;
+	if (fk_refuse()) return NULL;
+	if (n >= FK_UNSATISFIABLE) { fk_unsat++; errno = ENOMEM; return NULL; }
+	p = __real_malloc(n); fk_track(p, n); return p;
+}
+void * __wrap_calloc(size_t a, size_t b)
+{
+	void * p;
+	if (fk_refuse()) return NULL;
+	if (a != 0 && b != 0 && (a >= FK_UNSATISFIABLE || b >= FK_UNSATISFIABLE || a * b / a != b || a * b >= FK_UNSATISFIABLE)) { fk_unsat++; errno = ENOMEM; return NULL; }
+	p = __real_calloc(a, b); fk_track(p, a * b); return p;
+}
 void * __wrap_realloc(void * o, size_t n)
 {
 	void * p;
 	if (fk_refuse()) return NULL;		/* the old block stays valid */
+	if (n >= FK_UNSATISFIABLE) { fk_unsat++; errno = ENOMEM; return NULL; }
 	p = __real_realloc(o, n);
 	if (p != NULL || n == 0) { if (o) fk_untrack(o); fk_track(p, n); }
 	return p;
@@ -179,11 +198,25 @@ void * __wrap_realloc(void * o, size_t n)
 void __wrap_free(void * p) { if (p) fk_untrack(p); __real_free(p); }
 
 /* ------------------------------------------------------------------ user buffers (registered by the driver) */
-struct fk_ubuf { int id; const uint8_t * base; size_t len; };
+struct fk_ubuf { int id; const uint8_t * base; size_t len; int huge; };
 static struct fk_ubuf fk_ubufs[256]; static int fk_nubufs;
 void fk_register_buf(int id, const void * base, size_t len)
 {
-	if (fk_nubufs < 256) { fk_ubufs[fk_nubufs].id = id; fk_ubufs[fk_nubufs].base = base; fk_ubufs[fk_nubufs].len = len; fk_nubufs++; }
+	if (fk_nubufs < 256) { fk_ubufs[fk_nubufs].id = id; fk_ubufs[fk_nubufs].base = base; fk_ubufs[fk_nubufs].len = len; fk_ubufs[fk_nubufs].huge = 0; fk_nubufs++; }
+}
+/* a buffer of gigabytes that is not backed by memory (PROT_NONE): recv / send account for the bytes
+ * they move and do not touch it */
+void fk_register_hugebuf(int id, const void * base, size_t len)
+{
+	fk_register_buf(id, base, len);
+	if (fk_nubufs > 0 && fk_ubufs[fk_nubufs - 1].base == base) fk_ubufs[fk_nubufs - 1].huge = 1;
+}
+static int fk_in_hugebuf(const void * p)
+{
+	int i; const uint8_t * q = p;
+	for (i = fk_nubufs; i-- > 0; )
+		if (fk_ubufs[i].huge && q >= fk_ubufs[i].base && q <= fk_ubufs[i].base + fk_ubufs[i].len) return 1;
+	return 0;
 }
 /* describe where p points: "u<id>:<blk>:<off>" or "nb:<blk>:<off>" */
 static void fk_where(char * out, const void * p)
@@ -234,6 +267,8 @@ int fk_feed(int fd, int wr, const char * tok)
 	switch (tok[0]) {
 	case 'd': e.kind = K_DATA; e.len = (size_t)strtoull(tok + 1, NULL, 10); if (e.len == 0 || e.len > 2000000) return -1;
 		e.pos = q->feedpos; q->feedpos += e.len; break;
+	case 'D': e.kind = K_DATA; e.len = (size_t)strtoull(tok + 1, NULL, 10); if (e.len == 0) return -1;	/* gigabytes for an R: request */
+		e.pos = q->feedpos; q->feedpos += e.len; break;
 	case 'z': e.kind = K_DATA; e.len = 0; break;
 	case 'n': e.kind = K_ROOM; e.len = (size_t)strtoull(tok + 1, NULL, 10); break;
 	case 'c': e.kind = K_CONN; break;
@@ -245,7 +280,7 @@ int fk_feed(int fd, int wr, const char * tok)
 }
 
 /* wires: bytes taken by send, per descriptor, in order of first send */
-struct fk_wire { int fd; uint8_t * p; size_t n, cap; };
+struct fk_wire { int fd; uint8_t * p; size_t n, cap; size_t ghost; /* bytes taken from unbacked buffers: counted only */ };
 static struct fk_wire fk_wires[FK_MAXQ]; static int fk_nwires;
 static struct fk_wire * fk_getwire(int fd)
 {
@@ -258,7 +293,10 @@ static struct fk_wire * fk_getwire(int fd)
 void fk_trailer(void)	/* wire<fd>=.. in order of first send, left<fd>=.. in order of first feed */
 {
 	int i; size_t k; char sh[64];
-	for (i = 0; i < fk_nwires; i++) { fk_show(sh, fk_wires[i].p, fk_wires[i].n); fk_log("wire%d=%zu:%s", fk_wires[i].fd, fk_wires[i].n, sh); }
+	for (i = 0; i < fk_nwires; i++) {
+		if (fk_wires[i].ghost) { fk_log("wire%d=%zu:untouched", fk_wires[i].fd, fk_wires[i].n + fk_wires[i].ghost); continue; }
+		fk_show(sh, fk_wires[i].p, fk_wires[i].n); fk_log("wire%d=%zu:%s", fk_wires[i].fd, fk_wires[i].n, sh);
+	}
 	for (i = 0; i < fk_nqs; i++) if (!fk_qs[i].wr) {
 		size_t left = 0;
 		for (k = fk_qs[i].head; k < fk_qs[i].n; k++) if (fk_qs[i].ev[k].kind == K_DATA) left += fk_qs[i].ev[k].len;
@@ -417,7 +455,7 @@ ssize_t __wrap_recv(int fd, void * buf, size_t len, int flags)
 	e = &q->ev[q->head];
 	if (e->kind == K_DATA) {
 		n = e->len < len ? e->len : len;
-		fk_fill(buf, fd, e->pos, n);
+		if (!fk_in_hugebuf(buf)) fk_fill(buf, fd, e->pos, n);
 		if (n == e->len) q->head++; else { e->pos += n; e->len -= n; }
 		fk_log("R%d:%s:%zu=%zu", fd, wh, len, n);
 		fk_errno_rotate();
@@ -440,7 +478,8 @@ ssize_t __wrap_send(int fd, const void * buf, size_t len, int flags)
 	e = &q->ev[q->head++];
 	if (e->kind == K_ROOM) {
 		n = e->len < len ? e->len : len;
-		if (w) {
+		if (w && fk_in_hugebuf(buf)) w->ghost += n;
+		else if (w) {
 			if (w->cap - w->n < n) { w->cap = (w->n + n) * 2; w->p = __real_realloc(w->p, w->cap); }
 			memcpy(w->p + w->n, buf, n); w->n += n;
 		}
